@@ -26,7 +26,7 @@ def tag_of(data):
 
 VARIANTS = ['upgrade_ok', 'upgrade_fail_frame', 'upgrade_fail_close', 'polling_only', 'ws_only',
             'two_sessions', 'close_during', 'upgrade_no_pending_poll', 'backlog_polling', 'backlog_ws',
-            'backlog_upgrade', 'overlapping_opens', 'upgrade_fail_accept', 'backlog_ping']
+            'backlog_upgrade', 'overlapping_opens', 'upgrade_fail_accept', 'backlog_ping', 'ws_send_fault', 'upgraded_send_fault']
 
 
 class _SlowConnect:
@@ -140,7 +140,7 @@ class Delivery(core.Scenario):
         self.fail_step = None
         self.closed_by_client = {}
         A = self.A = None
-        if variant in ('ws_only', 'backlog_ws'):
+        if variant in ('ws_only', 'backlog_ws', 'ws_send_fault'):
             h = peer.ws_open(w)
             A = [e[1] for e in w.events if e[0] == 'connect'][-1]
             self.ws[A] = h
@@ -229,6 +229,21 @@ class Delivery(core.Scenario):
                       frame(A, 'CLOSE', 'ws_close', need_pong=True, marks_failure=True)]
         elif variant == 'upgrade_fail_accept':
             client = [poll(A), ws_connect_dropped(A), poll(A, 'late_poll')]
+        elif variant in ('ws_send_fault', 'upgraded_send_fault'):
+            # k messages are queued by one task and flushed as a batch; the write of the second one fails once (connection
+            # reset by the peer); a further message is sent afterwards. Either the session ends there, or nothing is lost.
+            if variant == 'upgraded_send_fault':
+                self.ws[A] = peer.do_upgrade(w, A)
+            hws = self.ws[A]
+            hws.fail_send_at = getattr(hws, 'nsend', 0) + 1
+
+            def burst_f(sc):
+                for i in range(k):
+                    sc.sends.append((tag_of(PAYLOADS[i]), A, None, sc.world.nstep))
+                c = sc.world.call_seq('send', [(A, PAYLOADS[i]) for i in range(k)])
+                sc.sends[:] = [(t, s_, c, st) for (t, s_, _, st) in sc.sends]
+            app = [core.Action('burst%d' % k, burst_f), send(A, k + 1)]
+            client = []
         elif variant == 'polling_only':
             client = [poll(A), poll(A, 'poll2'), poll(A, 'poll3')]
         elif variant == 'ws_only':
@@ -360,6 +375,8 @@ def param_list(ctx):
     for impl in ('sync', 'async'):
         for v in VARIANTS:
             ks = (2, 3) if v in ('upgrade_ok', 'upgrade_fail_frame', 'upgrade_fail_accept') else (2,)
+            if v.endswith('send_fault'):
+                ks = (3,)
             if v.startswith('backlog'):
                 ks = (17, 20, 40)
             if v == 'backlog_ping':
